@@ -4,14 +4,20 @@ pub mod common;
 pub mod c01;
 pub mod c02;
 pub mod c03;
+pub mod c04;
 pub mod c05;
+pub mod c06;
+pub mod c07;
 
 pub fn run(prop: &str, ctx: &mut Ctx) -> bool {
     match prop {
         "C01" => c01::run(ctx),
         "C02" => c02::run(ctx),
         "C03" => c03::run(ctx),
+        "C04" => c04::run(ctx),
         "C05" => c05::run(ctx),
+        "C06" => c06::run(ctx),
+        "C07" => c07::run(ctx),
         _ => return false,
     }
     true
